@@ -620,10 +620,12 @@ impl<P: Payload> Proc<P> {
             match f {
                 Fut::Send(p) => {
                     std::ptr::drop_in_place(p);
+                    sched::record(sched::H_FUTDEAD, p as usize, 0, 0, None);
                     self.quarantine.push((p as *mut u8, std::alloc::Layout::new::<SendFuture<'static, P>>()));
                 }
                 Fut::Recv(p) => {
                     std::ptr::drop_in_place(p);
+                    sched::record(sched::H_FUTDEAD, p as usize, 0, 0, None);
                     self.quarantine.push((p as *mut u8, std::alloc::Layout::new::<ReceiveFuture<'static, P>>()));
                 }
                 Fut::Stream(p) => {
@@ -858,3 +860,109 @@ static PEEKER_DROP: Mutex<Option<Box<dyn FnOnce() + Send>>> = Mutex::new(None);
 
 struct SendBox<T>(T);
 unsafe impl<T> Send for SendBox<T> {}
+
+
+/// C17 scenario: processes contend on the raw spin lock of kanal (re-exported under cfg(kanal_verif)) through
+/// lock / try_lock / unlock and touch a monitored plain cell inside the critical section.
+pub fn run_mutex(prog: &Value, strat: Strat) -> RunResult {
+    use lock_api::RawMutex;
+    struct Shared {
+        m: kanal::verif::RawMutexLock,
+        cell: std::cell::UnsafeCell<u64>,
+    }
+    unsafe impl Sync for Shared {}
+    let procs = prog["procs"].as_array().cloned().unwrap_or_default();
+    let n = procs.len();
+    let sh: &'static Shared = Box::leak(Box::new(Shared { m: kanal::verif::RawMutexLock::INIT, cell: std::cell::UnsafeCell::new(0) }));
+    let mut phase_of: Vec<u32> = procs.iter().map(|p| gu(p, "phase") as u32).collect();
+    let maxp = phase_of.iter().cloned().max().unwrap_or(0);
+    phase_of.push(maxp + 1);
+    sched::reset(n + 1, strat, phase_of);
+    {
+        let mut s = sched::g().m.lock().unwrap();
+        for l in s.lockspin.iter_mut() {
+            *l = true; // failing lock attempts are what this scenario is about
+        }
+    }
+    let mut joins = Vec::new();
+    for (pi, p) in procs.iter().enumerate() {
+        let ops = p["ops"].as_array().cloned().unwrap_or_default();
+        joins.push(
+            std::thread::Builder::new()
+                .stack_size(1 << 20)
+                .spawn(move || {
+                    sched::thread_start(pi);
+                    let mut held = false;
+                    let mut oid = (pi as u32 + 1) * 1000;
+                    for op in &ops {
+                        let name = gs(op, "op");
+                        let ok = match name {
+                            "lock" | "try_lock" => !held,
+                            "unlock" | "write" | "read" => held,
+                            _ => false,
+                        };
+                        if !ok {
+                            continue;
+                        }
+                        oid += 1;
+                        sched::point(sched::H_BEGIN, 0, oid as u64, 0);
+                        sched::annotate(format!("\"o\":{},\"op\":\"{}\"", oid, name));
+                        let r = match name {
+                            "lock" => {
+                                sh.m.lock();
+                                held = true;
+                                "Ok"
+                            }
+                            "try_lock" => {
+                                if sh.m.try_lock() {
+                                    held = true;
+                                    "Ok"
+                                } else {
+                                    "Busy"
+                                }
+                            }
+                            "unlock" => {
+                                unsafe { sh.m.unlock() };
+                                held = false;
+                                "Ok"
+                            }
+                            "write" => {
+                                sched::point(kanal::verif::PTR_WRITE, sh.cell.get() as usize, 8, 0);
+                                unsafe { *sh.cell.get() += 1 };
+                                "Ok"
+                            }
+                            _ => {
+                                sched::point(kanal::verif::PTR_READ, sh.cell.get() as usize, 8, 0);
+                                let _ = unsafe { *sh.cell.get() };
+                                "Ok"
+                            }
+                        };
+                        sched::record(sched::H_END, 0, oid as u64, 0, Some(format!("\"o\":{},\"r\":\"{}\"", oid, r)));
+                    }
+                    if held {
+                        oid += 1;
+                        sched::point(sched::H_BEGIN, 0, oid as u64, 0);
+                        sched::annotate(format!("\"o\":{},\"op\":\"unlock\"", oid));
+                        unsafe { sh.m.unlock() };
+                        sched::record(sched::H_END, 0, oid as u64, 0, Some(format!("\"o\":{},\"r\":\"Ok\"", oid)));
+                    }
+                    sched::thread_finish();
+                })
+                .unwrap(),
+        );
+    }
+    let closer = std::thread::Builder::new()
+        .spawn(move || {
+            sched::thread_start(n);
+            sched::thread_finish();
+        })
+        .unwrap();
+    let out = sched::control(n + 1);
+    if !out.stuck && !out.over_budget {
+        for j in joins {
+            let _ = j.join();
+        }
+        let _ = closer.join();
+    }
+    RunResult { out, n_procs: n }
+}
